@@ -322,7 +322,7 @@ func (g *gen) RenderFeatures() {
 		}
 		g.sb.WriteString("pt0 -> pt0: self {\n  style.animated: true\n}\n")
 	}
-	if tp.Chance(1, 3, "rf.arrowheads") {
+	if tp.Chance(1, 2, "rf.arrowheads") {
 		// every arrowhead shape once, filled at one end and unfilled at the other
 		heads := []string{"triangle", "arrow", "diamond", "circle", "box", "cross", "cf-one", "cf-one-required", "cf-many", "cf-many-required", "unfilled-triangle"}
 		flip := tp.Chance(1, 2, "rf.arrowheads.flip")
